@@ -315,13 +315,14 @@ func (ex *Exchange[H]) GetRangeByHeight(
 		),
 	)
 	defer span.End()
-	if to <= from.Height()+1 {
+	if to <= from.Height() || to-from.Height() <= 1 {
 		// nothing to request: an empty or inverted range would otherwise never complete
 		// (or underflow the amount of headers to request)
+		// NOTE: compared this way round, as from.Height()+1 wraps to 0 at the top of uint64
 		err := fmt.Errorf(
-			"header/p2p: invalid range: `to`(%d) must be greater than from.Height()+1(%d)",
+			"header/p2p: invalid range: `to`(%d) must be greater than from.Height()(%d)+1",
 			to,
-			from.Height()+1,
+			from.Height(),
 		)
 		span.SetStatus(codes.Error, err.Error())
 		return nil, err
